@@ -14,7 +14,7 @@ pub fn def() -> PropDef {
         job_level,
         run_job,
         replay,
-        rule: "chord tables: ALL sets of 1-3 chords over the participant subsets {ab, ac, bc, abc} (thorough: also 4 participants) as defchordsv2 (x release rule {first-release, all-released} x {enabled, all disabled on the held layer, each single chord disabled on the held layer while the others stay enabled}) and as a v1 defchords group (with all singletons defined); every chord has its own output key. Structured histories per table: for EVERY non-empty subset S of the participants (alone, and with a non-chord key z inserted at every position): EVERY permutation of presses, EVERY gap vector from {0,1,T-1,T,T+1}, then EVERY release permutation (1 tick apart; for the all-0 and all-1 press-gap vectors (foreign key absent or pressed last) also 45 ticks apart, which shows which key each output is bound to), then settle. Quick adds five v1 tables over four participants (decomposition shapes; press gaps {0,1}, no foreign key). Generic histories: ALL physically consistent histories of D steps over press/release of a,b,c,z + tick 1 + tick T+1. Oracle ChordSpec: (exact) if S is a defined chord and all of S is pressed within the timeout (boundary T: either), exactly that chord's action is output once and no participant's own action; (none) if S contains no defined chord as a subset, every key's own action is output once, in press order; (always) accounting: the participants of the chords that fired plus the keys whose own action was output are exactly the keys pressed, each once (nothing swallowed, nothing doubled), own actions of non-chord keys keep their order; with the chords disabled on the active layer no chord fires; the chord action goes up no later than T+8+2*(number of events) ticks (processing latency of queued releases) after the last participant's release, for all-released not before it, for first-release within T+8 ticks of the first release; nothing is held after settle; a key whose own action was output (alone or as a decomposed part) goes up no later than the latency bound after THAT key's release.",
+        rule: "chord tables: ALL sets of 1-3 chords over the participant subsets {ab, ac, bc, abc} (thorough: also 4 participants) as defchordsv2 (x release rule {first-release, all-released} x {enabled, all disabled on the held layer, each single chord disabled on the held layer while the others stay enabled}) and as a v1 defchords group (with all singletons defined); every chord has its own output key. Structured histories per table: for EVERY non-empty subset S of the participants (alone, and with a non-chord key z inserted at every position): EVERY permutation of presses, EVERY gap vector from {0,1,T-1,T,T+1}, then EVERY release permutation (1 tick apart; for the all-0 and all-1 press-gap vectors (foreign key absent or pressed last) also 45 ticks apart, which shows which key each output is bound to), then settle. Quick adds five v1 tables over four participants (decomposition shapes; press gaps {0,1}, no foreign key). Generic histories: ALL physically consistent histories of D steps over press/release of a,b,c,z + tick 1 + tick T+1. Oracle ChordSpec: (exact) if S is a defined chord and all of S is pressed within the timeout (boundary T: either), exactly that chord's action is output once and no participant's own action; (none) if S contains no defined chord as a subset, every key's own action is output once, in press order; (always) accounting: the participants of the chords that fired plus the keys whose own action was output are exactly the keys pressed, each once (nothing swallowed, nothing doubled), own actions of non-chord keys keep their order; with the chords disabled on the active layer no chord fires; the chord action goes up no later than T+8+2*(number of events) ticks (processing latency of queued releases) after the last participant's release, for all-released — and for a v1 chord with a single-key action that fired for exactly the pressed set (documented v1 release behaviour) — not before it, for first-release within T+8 ticks of the first release; nothing is held after settle; a key whose own action was output (alone or as a decomposed part) goes up no later than the latency bound after THAT key's release.",
         assumptions: &["v1 release timing beyond 'not later than all participants released' is documented as inconsistent and not checked", "chords-v2-min-idle (5 ticks after a non-chord activation) makes chord firing optional within that window in generic histories; accounting still holds"],
         required_level,
         min_outcomes: 3,
@@ -305,6 +305,11 @@ fn judge_structured(t: &Table, presses: &[(usize, u64)], releases: &[(usize, u64
             } else if *up < lastp && *dn <= firstp {
                 return Some(("all-released-early".into(), format!("all-released chord {ci} released at {up} before its last participant's release at {lastp}; trace [{}]", o.tstr)));
             }
+        } else if t.chords[*ci] == smask && o.fired.len() == 1 && o.singles.iter().all(|s| s.0 == 9) && *up < lastp && *dn <= firstp {
+            // v1, config.adoc "Release behaviour": for single key actions an input chord releases the
+            // action only when ALL keys of the chord have been released. Applies when exactly the
+            // pressed chord fired (no decomposition).
+            return Some(("v1-released-before-all-participants".into(), format!("v1 chord {ci} (exactly the pressed set, single-key action) released at {up} before its last participant's release at {lastp}; trace [{}]", o.tstr)));
         }
     }
     // a key whose own action was output (no chord, or a decomposed part of one key) is an ordinary
